@@ -59,8 +59,10 @@ World(w) ==
       [] w = "w1" -> {}
       [] w = "w2" -> {PinRec("cP", "direct", "nP", NA), PinRec("cQ", "direct", "nQ", NA),
                       PinRec("cU", "recursive", NA, NA), PinRec("cR", "recursive", "n1", NA)}
+      [] w = "wr" -> {PinRec("cP", "recursive", "nP", NA), PinRec("cQ", "recursive", "nQ", NA),
+                      PinRec("root", "recursive", "n0", NA)}     \* the content of the next add is pinned already
       [] OTHER    -> {}
-Worlds == {"w0", "w1", "w2"}
+Worlds == {"w0", "w1", "w2", "wr"}
 Cids(ps)     == {p.cid : p \in ps}
 PinOf(ps, c) == CHOOSE p \in ps : p.cid = c
 Put(ps, rec) == {p \in ps : p.cid # rec.cid} \cup {rec}
@@ -75,7 +77,16 @@ Res(a) == CASE a = "cP" -> "cP" [] a = "cU" -> "cU" [] a = "pR" -> "cR" [] a = "
 
 EmptyBody == "0:da39a3ee5e6b4b0d3255"      \* the driver's digest (length:sha1 prefix) of no bytes
 StatTotal == <<123, 1230>>          \* sum over the three harness peers
-GCKeys    == {"g1", "g2", "g3"}
+GCKeys    == {"g1", "g2", "g3"}       \* harness RepoGC result: peer A collected g1, g2, peer B g3, peer C nothing
+\* which keys the harness cluster reports as failed ("err-<key>"), every position: none, one, two, all
+GCErrs    == {NA, "1", "2", "3", "12", "13", "23", "123"}
+GCErrSet(x) == CASE x = "1" -> {"g1"} [] x = "2" -> {"g2"} [] x = "3" -> {"g3"} [] x = "12" -> {"g1", "g2"}
+                 [] x = "13" -> {"g1", "g3"} [] x = "23" -> {"g2", "g3"} [] x = "123" -> GCKeys [] OTHER -> {}
+GCErrOf(g)  == "err-" \o g
+\* faults the harness cluster injects into the RPCs of the add path (the designated call fails, nothing changes)
+Faults     == {"alloc", "put1", "putroot", "pin"}
+\* where the client hangs up: right after the response headers / right after the last streamed entry
+Hangups    == {"headers", "entry"}
 
 (***************************************************************************)
 (* Requests                                                                *)
@@ -83,7 +94,7 @@ GCKeys    == {"g1", "g2", "g3"}
 Blank == [world |-> "w0", method |-> "POST", pathk |-> "route", route |-> NA, style |-> NA, arg |-> NA, arg2 |-> NA,
           type |-> NA, unpin |-> NA, body |-> NA, onlyhash |-> NA, pin |-> NA, layout |-> NA,
           trickle |-> NA, chunker |-> NA, cidv |-> NA, raw |-> NA, name |-> NA, repl |-> NA,
-          streamerr |-> NA, qk |-> NA, bk |-> NA, enc |-> NA]
+          streamerr |-> NA, qk |-> NA, bk |-> NA, enc |-> NA, fault |-> NA, hangup |-> NA, gcerr |-> NA]
 \* enc: how the fixed part of a pinning endpoint's path is spelled on the wire: "-" plain, "letter" = one or
 \* more letters percent-encoded (/api/v0/pin/%61dd), "slash" = one or more separating slashes as %2F
 \* (/api/v0/pin%2Frm, /api/v0/pin/add%2F<cid>), "both".  The request is the same request: pathk = "route"
@@ -114,7 +125,16 @@ AddLiteReqs ==
         m \in Methods, b \in {"mp", "raw"}, oh \in {NA, "true"}, p \in {NA, "false"}, ch \in {NA, "size-16"}}
 RepoReqs ==
     {[Blank EXCEPT !.method = m, !.route = "repo/stat"] : m \in Methods} \cup
-    {[Blank EXCEPT !.method = m, !.route = "repo/gc", !.streamerr = se] : m \in Methods, se \in {NA, "true"}}
+    {[Blank EXCEPT !.method = m, !.route = "repo/gc", !.streamerr = se, !.gcerr = ge] :
+        m \in Methods, se \in {NA, "true"}, ge \in GCErrs}
+\* add with one RPC of the add path failing, with and without the same root pinned before
+AddFaultReqs ==
+    {[Blank EXCEPT !.method = m, !.world = w, !.route = "add", !.body = "mp", !.pin = p, !.name = n, !.fault = f] :
+        m \in {"POST", "PUT"}, w \in {"w0", "wr"}, p \in {NA, "false", "true"}, n \in {NA, "n1"}, f \in Faults}
+\* add whose client hangs up early
+AddHangupReqs ==
+    {[Blank EXCEPT !.method = m, !.world = w, !.route = "add", !.body = "mp", !.pin = p, !.hangup = h] :
+        m \in {"POST", "GET"}, w \in {"w0", "wr"}, p \in {NA, "false"}, h \in Hangups}
 PassReqs(kinds) ==
     {[Blank EXCEPT !.method = m, !.pathk = k, !.qk = q, !.bk = b] :
         m \in Methods, k \in kinds, q \in QueryKinds, b \in BodyKinds}
@@ -123,15 +143,17 @@ HijackShaped ==
     {r \in PinAddRmReqs \cup PinLsReqs : StyleOK(r.style, r.arg)} \cup
     {r \in PinUpdateReqs : r.arg = "none" => r.arg2 = "none"} \cup
     AddFullReqs \cup AddLiteReqs \cup RepoReqs
+FaultAndHangup == AddFaultReqs \cup AddHangupReqs \cup
+    {[r EXCEPT !.world = "wr"] : r \in {x \in AddLiteReqs : x.method = "POST" /\ x.chunker = NA}}  \* (same root)
 \* other pinsets before the request: the API verb on every pinning endpoint (add: reduced option set)
 OtherWorlds ==
     {[r EXCEPT !.world = w] : w \in {"w1", "w2"},
-        r \in {x \in HijackShaped : x.method = "POST" /\ (x.route = "add" => x \in AddLiteReqs)}}
+        r \in {x \in HijackShaped : x.method = "POST" /\ (x.route = "add" => x \in AddLiteReqs) /\ x.gcerr = NA}}
 \* percent-encoded spellings: every route, style, argument class and method (add: reduced option set)
 EncodedSpellings ==
     {[r EXCEPT !.enc = e] : e \in Encodings,
-        r \in {x \in HijackShaped : (x.route = "add" => x \in AddLiteReqs) /\ x.type # "bogus"}}
-Requests == HijackShaped \cup OtherWorlds \cup EncodedSpellings \cup PassReqs(PassKinds)
+        r \in {x \in HijackShaped : (x.route = "add" => x \in AddLiteReqs) /\ x.type # "bogus" /\ x.gcerr \in {NA, "2"}}}
+Requests == HijackShaped \cup OtherWorlds \cup EncodedSpellings \cup FaultAndHangup \cup PassReqs(PassKinds)
 \* Paths that are not in canonical form ("//", "/./", "/../"): kept apart, see KNOWN finding.
 UncleanRequests == PassReqs({"unclean"})
 
@@ -146,9 +168,11 @@ Op(m, tgt, mode, upd, name, repl, ok) ==
 Op0(m, tgt, ok) == Op(m, tgt, NA, NA, NA, NA, ok)
 Mutating == {"Cluster.PinPath", "Cluster.UnpinPath", "Cluster.Pin", "Cluster.Unpin", "Cluster.RepoGC"}
 
-ErrWith(st, ops, P) == [err |-> TRUE, status |-> st, ops |-> ops, ps |-> P, pins |-> <<>>, keys |-> {}, stat |-> <<>>]
+ErrWith(st, ops, P) == [err |-> TRUE, status |-> st, ops |-> ops, ps |-> P, pins |-> <<>>, keys |-> {}, stat |-> <<>>,
+                        gc |-> {}, tkeys |-> {}]
 OkWith(ops, ps, pins, keys, stat) ==
-    [err |-> FALSE, status |-> 200, ops |-> ops, ps |-> ps, pins |-> pins, keys |-> keys, stat |-> stat]
+    [err |-> FALSE, status |-> 200, ops |-> ops, ps |-> ps, pins |-> pins, keys |-> keys, stat |-> stat,
+     gc |-> {}, tkeys |-> {}]
 
 ModeOf(t) == IF t = "direct" THEN "direct" ELSE "recursive"       \* api.PinModeFromString
 
@@ -206,11 +230,16 @@ ExpAdd(req, P) ==
     ELSE IF req.onlyhash = "true" THEN ErrWith(500, <<>>, P)                      \* "only-hash is not supported"
     ELSE IF req.repl = "x" \/ req.layout = "bogus" \/ req.cidv = "x" THEN ErrWith(500, <<>>, P)
     ELSE IF req.chunker = "bogus" THEN ErrWith(200, <<>>, P)          \* 200 + X-Stream-Error trailer
-    ELSE LET opA == Op0("Cluster.BlockAllocate", NA, TRUE)
-             opP == Op("Cluster.Pin", "root", "recursive", NA, req.name, req.repl, TRUE)
+    ELSE LET opA == Op0("Cluster.BlockAllocate", NA, req.fault # "alloc")
+             opP == Op("Cluster.Pin", "root", "recursive", NA, req.name, req.repl, req.fault # "pin")
              opU == Op0("Cluster.Unpin", "root", TRUE)
              rec == PinRec("root", "recursive", req.name, req.repl) IN
-         IF req.pin = "false"
+         \* a failing RPC ends the add: 200 was sent already, the error goes to the X-Stream-Error trailer,
+         \* and the handler returns before the unpin
+         IF req.fault = "alloc" THEN ErrWith(200, <<opA>>, P)
+         ELSE IF req.fault \in {"put1", "putroot"} THEN ErrWith(200, <<opA>>, P)
+         ELSE IF req.fault = "pin" THEN [ErrWith(200, <<opA, opP>>, P) EXCEPT !.pins = <<"root">>]
+         ELSE IF req.pin = "false"
          THEN OkWith(<<opA, opP, opU>>, Del(P, "root"), <<"root">>, {}, <<>>)   \* pinned, then unpinned
          ELSE OkWith(<<opA, opP>>, Put(P, rec), <<"root">>, {}, <<>>)
 
@@ -218,7 +247,15 @@ ExpRepoStat(req, P) ==
     LET s == Op0("IPFS.RepoStat", NA, TRUE) IN
     OkWith(<<Op0("Consensus.Peers", NA, TRUE), s, s, s>>, P, <<>>, {}, StatTotal)
 
-ExpRepoGC(req, P) == OkWith(<<Op0("Cluster.RepoGC", NA, TRUE)>>, P, <<>>, GCKeys, <<>>)
+\* repoGCHandler: one entry per collected key; a key's error travels in its own entry when stream-errors=true,
+\* otherwise all of them are joined into the X-Stream-Error trailer
+ExpRepoGC(req, P) ==
+    LET E == GCErrSet(req.gcerr)
+        inline == req.streamerr = "true" IN
+    [OkWith(<<Op0("Cluster.RepoGC", NA, TRUE)>>, P, <<>>, GCKeys, <<>>) EXCEPT
+        !.err   = ~inline /\ E # {},
+        !.gc    = {[key |-> g, error |-> IF inline /\ g \in E THEN GCErrOf(g) ELSE NA] : g \in GCKeys},
+        !.tkeys = IF inline THEN {} ELSE E]
 
 Exp(req, P) ==
     CASE req.route = "pin/add"    -> ExpPinAdd(req, P)
@@ -243,14 +280,18 @@ ObsOf(r, P) ==
         LET e == Exp(r, P) IN
         [ps0 |-> SetToSeq(P), self |-> TRUE, err |-> e.err, status |-> e.status, ops |-> e.ops, ps |-> SetToSeq(e.ps),
          pins |-> e.pins, keys |-> SetToSeq(e.keys), stat |-> e.stat, addp |-> <<AddP(r)>>, nblocks |-> 1,
+         gc |-> SetToSeq(e.gc), tkeys |-> SetToSeq(e.tkeys),
          dcalls |-> <<[method |-> "OPTIONS", uri |-> "u", body |-> EmptyBody, hdrs |-> "", pclass |-> r.route]>>,
          sent |-> sent, resp |-> [status |-> e.status, body |-> "p", hdrs |-> "ph"],
          dresp |-> [status |-> 0, body |-> "", hdrs |-> ""]]
     ELSE
         [ps0 |-> SetToSeq(P), self |-> FALSE, err |-> FALSE, status |-> 200, ops |-> <<>>, ps |-> SetToSeq(P),
-         pins |-> <<>>, keys |-> <<>>, stat |-> <<>>, addp |-> <<>>, nblocks |-> 0,
+         pins |-> <<>>, keys |-> <<>>, stat |-> <<>>, addp |-> <<>>, nblocks |-> 0, gc |-> <<>>, tkeys |-> <<>>,
          dcalls |-> <<[method |-> r.method, uri |-> "u", body |-> "b", hdrs |-> "h", pclass |-> "other"]>>,
          sent |-> sent, resp |-> dresp, dresp |-> dresp]
+
+\* what the answer lists is only checked when the method lets the answer carry a body
+Shows(req) == req.method # "HEAD"
 
 Before(obs) == Range(obs.ps0)      \* the pinset the harness cluster held when the request was sent
 
@@ -283,18 +324,23 @@ DCallsCoded(req, obs) ==
     /\ Cardinality({i \in DOMAIN obs.dcalls : obs.dcalls[i].method = "OPTIONS"}) = 1
     /\ Len(obs.dcalls) <= 2
 
-ConformsHij(req, obs) ==
-    LET e == Exp(req, Before(obs)) IN
-    /\ obs.self
-    /\ req.world # "seq" => Before(obs) = World(req.world)
+\* (not compared when the client hung up early: how far the handler got before noticing is not determined)
+ConformsAnswer(req, obs, e) ==
     /\ obs.err = e.err
     /\ obs.status = e.status
     /\ obs.ops = e.ops
     /\ Range(obs.ps) = e.ps
-    /\ obs.pins = e.pins
+    /\ req.fault \in {NA, "pin"} => obs.pins = e.pins       \* (an entry may or may not precede a failing block put)
     /\ Range(obs.keys) = e.keys
     /\ obs.stat = e.stat
-    /\ AddSucceeds(req, Before(obs)) => AddP(req) \in Range(obs.addp)
+    /\ Shows(req) => Range(obs.gc) = e.gc /\ Len(obs.gc) = Cardinality(e.gc) /\ Range(obs.tkeys) = e.tkeys
+
+ConformsHij(req, obs) ==
+    LET e == Exp(req, Before(obs)) IN
+    /\ obs.self
+    /\ req.world # "seq" => Before(obs) = World(req.world)
+    /\ req.hangup # NA \/ ConformsAnswer(req, obs, e)
+    /\ AddSucceeds(req, Before(obs)) /\ req.hangup = NA => AddP(req) \in Range(obs.addp)
     /\ DCallsCoded(req, obs)
 
 Conforms(req, obs) == IF Hijacked(req) THEN ConformsHij(req, obs) ELSE Relayed(req, obs)
@@ -313,13 +359,13 @@ HijackExact(req, obs) == (MustRelay(req) => ~obs.self) /\ (MustHijack(req) => ob
 NeverLeaks(req, obs) ==
     \A i \in DOMAIN obs.dcalls : obs.dcalls[i].method = "OPTIONS" \/ obs.dcalls[i].pclass # req.route
 
-\* what the answer lists is only checked when the method lets the answer carry a body
-Shows(req) == req.method # "HEAD"
-
 SuccMut(obs) == SelectSeq(obs.ops, LAMBDA o : o.m \in Mutating /\ o.ok)
 
 \* ErrorMeansNoOp: an error answer => no cluster operation was performed
-ErrorMeansNoOp(req, obs) == obs.err => (SuccMut(obs) = <<>> /\ Range(obs.ps) = Before(obs))
+\* (status >= 400 or an X-Stream-Error trailer; for repo/gc the trailer reports per-key failures of a collection
+\*  that was performed, which is the faithful answer and not an "error answer": there only the status counts)
+AnsweredError(req, obs) == IF req.route = "repo/gc" THEN obs.status >= 400 ELSE obs.err
+ErrorMeansNoOp(req, obs) == AnsweredError(req, obs) => (SuccMut(obs) = <<>> /\ Range(obs.ps) = Before(obs))
 
 Unchanged(obs) == Range(obs.ps) = Before(obs) /\ SuccMut(obs) = <<>>
 OthersKept(obs, ps, touched) == \A p \in Before(obs) : p.cid \notin touched => p \in ps
@@ -377,21 +423,47 @@ ReqParamsOK(req, p) ==
     /\ req.raw # NA => p.raw = req.raw
     /\ req.raw = NA => p.raw = (IF req.cidv = "1" THEN "true" ELSE "false")
 
+PinnedRoot(obs) == \E i \in DOMAIN obs.ops : obs.ops[i].m = "Cluster.Pin" /\ obs.ops[i].ok /\ obs.ops[i].tgt = "root"
+EffUnpins(obs)  == SelectSeq(obs.ops, LAMBDA o : o.m = "Cluster.Unpin" /\ o.ok /\ o.tgt = "root")
+\* the pinset the options ask for once the root has been pinned
+AddOutcome(req, obs) ==
+    IF req.pin = "false"      \* not pinned afterwards (a pin of the same root from before may be gone too)
+    THEN Del(Range(obs.ps), "root") = Del(Before(obs), "root") /\ "root" \notin Cids(Range(obs.ps))
+    ELSE Range(obs.ps) = Put(Before(obs), PinRec("root", "recursive", req.name, req.repl))
+AddDone(req, obs) ==
+    /\ ~obs.err
+    /\ obs.nblocks > 0
+    /\ Shows(req) => obs.pins = <<"root">> /\ \E i \in DOMAIN obs.addp : ReqParamsOK(req, obs.addp[i])
+    /\ AddOutcome(req, obs)
+
 FaithfulAdd(req, obs) ==
     IF req.onlyhash = "true" THEN Unchanged(obs)          \* nothing may be stored as pinned
     ELSE IF req.body # "mp" THEN obs.err
     ELSE IF ~AddOptionsValid(req) THEN TRUE               \* (ErrorMeansNoOp still applies)
-    ELSE /\ ~obs.err
-         /\ obs.nblocks > 0
-         /\ Shows(req) => obs.pins = <<"root">> /\ \E i \in DOMAIN obs.addp : ReqParamsOK(req, obs.addp[i])
-         /\ IF req.pin = "false"      \* not pinned afterwards (a pin of the same root from before may be gone too)
-            THEN Del(Range(obs.ps), "root") = Del(Before(obs), "root") /\ "root" \notin Cids(Range(obs.ps))
-            ELSE Range(obs.ps) = Put(Before(obs), PinRec("root", "recursive", req.name, req.repl))
+    ELSE IF req.hangup # NA THEN
+        \* The client went away early.  The observation is taken once the handler is quiet (the driver waits
+        \* >= 3 s for the unpin).  Whatever the proxy pinned for this request must still end up as the options
+        \* ask, whenever the client disconnects: pin=false => exactly one effective Unpin(root).
+        IF PinnedRoot(obs)
+        THEN AddOutcome(req, obs) /\ Len(EffUnpins(obs)) = (IF req.pin = "false" THEN 1 ELSE 0)
+        ELSE Unchanged(obs)
+    ELSE IF req.fault # NA THEN obs.err \/ AddDone(req, obs)   \* (ErrorMeansNoOp says the rest)
+    ELSE AddDone(req, obs)
 
 FaithfulRepoStat(req, obs) == ~obs.err /\ (Shows(req) => obs.stat = StatTotal) /\ Unchanged(obs)
+\* the answer is the cluster's result, key by key: every collected key exactly once, an entry carries its own
+\* key's error or none (never another key's), every failure is reported (in its entry or in the trailer), and no
+\* failure is reported for a key that was collected fine
 FaithfulRepoGC(req, obs) ==
-    /\ ~obs.err /\ (Shows(req) => Range(obs.keys) = GCKeys) /\ Range(obs.ps) = Before(obs)
+    LET E == GCErrSet(req.gcerr) IN
+    /\ obs.status < 400 /\ Range(obs.ps) = Before(obs)
     /\ Len(SuccMut(obs)) = 1 /\ SuccMut(obs)[1].m = "Cluster.RepoGC"
+    /\ Shows(req) =>
+        /\ Range(obs.keys) = GCKeys /\ Len(obs.gc) = Cardinality(GCKeys)
+        /\ \A i \in DOMAIN obs.gc : LET en == obs.gc[i] IN
+              en.error = NA \/ (en.key \in E /\ en.error = GCErrOf(en.key))
+        /\ \A g \in E : g \in Range(obs.tkeys) \/ \E i \in DOMAIN obs.gc : obs.gc[i].key = g /\ obs.gc[i].error # NA
+        /\ Range(obs.tkeys) \subseteq E
 
 Faithful(req, obs) ==
     CASE req.route = "pin/add"    -> FaithfulPinAdd(req, obs)
